@@ -15,11 +15,12 @@
 //! * MoonBit: `Int` 32-bit signed wrapping, `UInt` 32-bit unsigned, `Byte` 8-bit unsigned,
 //!   `Int64`/`UInt64`, `Char` = scalar value; `Byte::to_int` zero-extends, `Char::to_int` is the
 //!   code point, `Int::to_byte` keeps the low 8 bits, `reinterpret_as_*` keep the bits,
-//!   `land` is bitwise and, `Int::unsafe_to_char` keeps the value, `mbt_ffi_extend8/16` are the
-//!   wasm `i32.extend8_s` / `i32.extend16_s` the generated helper text declares;
+//!   `land` is bitwise and, `Int::unsafe_to_char` keeps the value; `extern "wasm"` helpers
+//!   (`mbt_ffi_extend8/16` ...) are interpreted from their inline wasm text (interp/wasm.rs);
 //! * float values are opaque bit patterns that only move (no arithmetic on floats accepted).
 
 pub mod langs;
+pub mod wasm;
 
 use std::fmt;
 
@@ -185,6 +186,8 @@ pub struct Probe {
     pub func: Func,
     pub opaque: String,
     pub opaque_sig: Sig,
+    /// MoonBit: the `extern "wasm"` helpers of the package, interpreted with wasm semantics
+    pub helpers: std::sync::Arc<wasm::Helpers>,
 }
 
 pub struct Outcome {
@@ -432,18 +435,7 @@ fn intrinsic(lang: Lang, name: &str, args: &[Val]) -> Option<Result<Val, EvalErr
     if lang != Lang::MoonBit {
         return None;
     }
-    let ext = |w: u32, args: &[Val]| -> Result<Val, EvalErr> {
-        if args.len() != 1 {
-            return unsup("extend arity".into());
-        }
-        let a = coerce(lang, args[0], Ty::I32)?;
-        let low = a.bits & ((1u64 << w) - 1);
-        let m = if low >> (w - 1) & 1 == 1 { low as i128 - (1i128 << w) } else { low as i128 };
-        Ok(Val::wrap(Ty::I32, m))
-    };
     match name {
-        "mbt_ffi_extend8" => Some(ext(8, args)),
-        "mbt_ffi_extend16" => Some(ext(16, args)),
         "Int::unsafe_to_char" => Some((|| {
             if args.len() != 1 {
                 return unsup("unsafe_to_char arity".into());
@@ -528,6 +520,9 @@ impl<'a> Env<'a> {
                     self.calls += 1;
                     self.opaque_arg = Some(a);
                     return Ok(self.opaque_ret);
+                }
+                if let Some(h) = self.probe.helpers.get(name.as_str()) {
+                    return wasm::call(h, &vals);
                 }
                 if let Some(r) = intrinsic(self.lang, name, &vals) {
                     return r;
